@@ -505,6 +505,16 @@ def valueStructFields (S : Schema) : List (Nat × Nat) :=
     | some st => (st.fields.filter fun f => f.kind == .elem && byDefaultRules S f && isStruct S f.ty).map fun f => (i, f.go)
     | none => []
 
+/-- those of them whose type is `AnExpression`: the default rules write the wrapped expression as a
+nested element that `AnExpression.UnmarshalXML` never looks at, so it is lost. (A value-typed
+`FormalExpression` field is merely written un-prefixed with a default namespace and reads back.) -/
+def valueExprFields (S : Schema) : List (Nat × Nat) :=
+  (List.range S.structs.length).flatMap fun i =>
+    match S.struct? i with
+    | some st => (st.fields.filter fun f => f.kind == .elem && byDefaultRules S f && f.ty == S.anExprTy
+        && i != S.anExprTy).map fun f => (i, f.go)
+    | none => []
+
 /-! ### FindBy coverage -/
 
 /-- one round of: a struct can contain an id-carrying element if it is one, embeds one, or has an
